@@ -12,7 +12,7 @@ from __future__ import annotations
 import itertools
 from typing import Any, Dict, List
 
-from .common import call, same, is_symbolic, PathAbort, mk_array
+from .common import call, same, is_symbolic, PathAbort, mk_array, replay_tiers
 
 PROP = "C06"
 
@@ -39,6 +39,41 @@ class FakeDF:
         else:
             self.columns = list(columns)
             self.values = [list(r) for r in rows]
+
+
+class NumeralCell:
+    """a table cell holding the decimal-comma text of a number (what pandas yields for a column it could not convert):
+    type() is str, .replace(",", ".") gives the decimal-point text, float() of that is the number, float() of the comma
+    text raises ValueError (the contract of the C-level conversion; the characters themselves are not modelled)"""
+    _sx_symbolic = True
+
+    def __init__(self, value, comma=True):
+        self.value, self.comma = value, comma
+
+    def __sx_type__(self):
+        return str
+
+    def replace(self, a, b, count=-1):
+        if (a, b) == (",", "."):
+            return NumeralCell(self.value, False)
+        from sx.engine import SxUnsupported
+        raise SxUnsupported("NumeralCell.replace(%r, %r)" % (a, b))
+
+    def __sx_float__(self):
+        if self.comma:
+            raise ValueError("could not convert string to float")
+        return self.value
+
+    def __repr__(self):
+        return "<numeral %r>" % (self.value,)
+
+
+def _cell(eng, v, as_text: bool):
+    if not as_text:
+        return v
+    if eng.symbolic:
+        return NumeralCell(v)
+    return repr(float(v)).replace(".", ",")
 
 
 def _with_fake_df(fn):
@@ -163,6 +198,8 @@ def make_table_harness(polar: bool, max_sweeps: int, max_len: int):
             headers = ["Frequency (Hz)", "|Z| (ohm)", ("-" if neg_im else "") + "Phase (deg)"]
         else:
             headers = ["f (Hz)", "Z' (ohm)", ("-" if neg_im else "") + "Z'' (ohm)"]
+        text = (set(), {0, 1, 2}, {1}, {2})[eng.choice(4, "text_columns")]
+        rows = [[_cell(eng, v, j in text) for j, v in enumerate(r)] for r in rows]
         df = FakeDF(columns=headers, rows=rows)
 
         def rect(mag, phi):
@@ -234,7 +271,7 @@ def obligations(tier: str):
         ms, ml = (2, 2) if tier == "quick" else (3, 3)
         obs.append(Obligation("table.%s" % ("polar" if polar else "cartesian"), make_table_harness(polar, ms, ml),
                               bounds="1..%d consecutive sweeps of up to %d points (a single sweep may have 1 point), ascending or descending, all values symbolic; "
-                                     "sign-inverted imaginary/phase column; %s" % (ms, ml + 1, "degrees or radians" if polar else "cartesian"),
+                                     "sign-inverted imaginary/phase column; no / all / only the second / only the third column as decimal-comma text; %s" % (ms, ml + 1, "degrees or radians" if polar else "cartesian"),
                               functions=funcs, stubs=stubs, expect_reach=["table"], max_paths=1000000, mode="fresh" if polar else "incremental"))
     obs.append(Obligation("emitter", make_emitter_harness(2 if tier == "quick" else 3), bounds="to_dataframe of %d symbolic points -> dataframe_to_data_sets" % (2 if tier == "quick" else 3),
                           functions=funcs, stubs=stubs, expect_reach=["emitter"], mode="fresh"))
@@ -248,14 +285,14 @@ EXPLANATION = (
     "frequencies are solver variables, header spellings / column orders / sign markers / units are enumerated by solver-driven choices."
 )
 ASSUMPTIONS = ["headers are a documented alias plus a unit suffix from a fixed list (the documented detection contract is prefix matching)",
-               "cells are numbers (decimal-comma strings are converted by C-level float() and are outside)", "a sweep of a multi-sweep file has at least two points"]
+               "text cells are decimal-comma numerals: float(text.replace(',', '.')) is the number written (contract of the C-level conversion)", "a sweep of a multi-sweep file has at least two points"]
 OUTSIDE = ["the text layer: pandas.read_csv/to_csv, separator sniffing, decimal commas", "the instrument layouts .mpt .i2b .P00 .dfr .dta .z (file I/O and C parsers)",
            "the table printed by the CLI 'parse' command (format_text)"]
 
 
 def replay(obligation: str, witness):
     from sx.concrete import run_concrete
-    for tier in ("thorough", "quick"):
+    for tier in replay_tiers():
         for ob in obligations(tier):
             if ob.name == obligation:
                 reproduced, msg, _ = run_concrete(ob.harness, witness)
